@@ -6,21 +6,21 @@ from pathlib import Path
 ROOT = Path(__file__).resolve().parent
 props = [json.loads(l) for l in (ROOT / "properties.jsonl").read_text().splitlines() if l.strip()]
 
-CLAIMED = {
-    # id: (category, technique, text, note, design_ref)
-    "C01": ("exploration", "property-based testing (Hypothesis) with an exact polynomial oracle: generated abstract networks vs. parsed ydot text",
-            "Generated networks are rendered for all four back-ends and every emitted ydot statement is compared, as an exact polynomial in k[], y[], with the mass-action law computed from the abstract network; equality of normal forms covers all abundance vectors and rate values of each generated network. Bounded search over networks, nothing proved.",
-            "trusts my C-subset reader (vtlib.ctext) and the IDX_<alias> slot lookup; cuSPARSE observed as text only", "DESIGN.md 4/C01"),
-    "C02": ("exploration", "property-based testing (Hypothesis), oracle = symbolic derivative of the emitted RHS polynomial",
-            "Each emitted Jacobian entry of each back-end is compared with the exact derivative of the emitted ydot polynomial, both directions (emitted entries correct, omitted entries identically zero), over generated networks with ODE modifiers of 0-3 dependencies.",
-            "all non-y symbols held fixed; unparsable text is a violation only if clang++ also rejects it", "DESIGN.md 4/C02"),
-    "C03": ("exploration", "property-based testing (Hypothesis), validity predicate on CSR arrays + differential between the four back-ends' Jacobian text + pattern file",
-            "CSR well-formedness, equality of coordinates and values across dense/sparse/cusparse/odeint, subscript bounds against the rendered macros, and jac_pattern.dat are checked on generated networks including empty rows and the thermal row.",
-            "text-level observation; sanitizer run is a thorough-tier supplement", "DESIGN.md 4/C03"),
-    "C04": ("exploration", "property-based testing (Hypothesis) over balanced-by-construction networks, oracle = zero polynomial of composition-weighted ydot sums",
-            "For networks balanced by construction the composition- and charge-weighted sums of the emitted ydot polynomials must vanish identically, and GetElementAbund must equal the generator-side composition sum.",
-            "compositions come from the generator; trusts vtlib.ctext", "DESIGN.md 4/C04"),
-}
+import importlib, sys
+sys.path.insert(0, str(ROOT))
+CLAIMED = {}
+for pr in props:
+    i = pr["id"]
+    if not (ROOT / "vtlib" / "checks" / f"{i.lower()}.py").exists():
+        continue
+    m = importlib.import_module(f"vtlib.checks.{i.lower()}")
+    CLAIMED[i] = (
+        getattr(m, "LEVEL", "exploration"),
+        getattr(m, "TECHNIQUE", "property-based testing (Hypothesis): generated inputs against an explicit oracle"),
+        getattr(m, "LEVEL_TEXT", None) or ("Bounded generated search, nothing proved. " + m.RULE),
+        getattr(m, "LEVEL_NOTE", None) or "; ".join(getattr(m, "ASSUMPTIONS", [])) or "trusts vtlib's generators and reference model",
+        f"DESIGN.md section 4/{i}",
+    )
 extra = {}
 p = ROOT / "manifest_extra.json"
 if p.exists():
